@@ -123,6 +123,10 @@ type Ranger struct {
 	sums  map[string][]AV
 	quiet bool // evaluating comparison operands for an environment: no diagnostics
 	steps int
+	// soft budget of one guard-operand evaluation while an environment is built: when it
+	// runs out that operand is simply unknown (no refinement); nothing computed meanwhile is cached
+	soft    int
+	softHit bool
 	// Exhausted is set when the evaluation budget ran out: every later answer is ⊤ and the
 	// rule that asked must report "undecided" rather than trust a relation.
 	Exhausted bool
@@ -329,6 +333,7 @@ func (E *Ranger) envFrom(ctx *callCtx, ff *FuncFacts, atoms []*Atom) *evalEnv {
 	env := &evalEnv{id: E.envN, ref: map[ssa.Value]Itv{}, rel: map[ssa.Value]Dir{}}
 	E.envs[key] = env
 	base := &evalEnv{id: 0, ref: map[ssa.Value]Itv{}, rel: map[ssa.Value]Dir{}}
+	tainted := false
 	side := func(v ssa.Value) (Itv, bool) {
 		if v == ZeroMarker {
 			return ConstInt(0), true
@@ -338,8 +343,23 @@ func (E *Ranger) envFrom(ctx *callCtx, ff *FuncFacts, atoms []*Atom) *evalEnv {
 		}
 		q := E.quiet
 		E.quiet = true
+		start, savedSoft := E.steps, E.soft
+		if E.soft == 0 || E.steps+SideBudget < E.soft {
+			E.soft = E.steps + SideBudget
+		}
 		av := E.eval(ctx, base, v, 0)
 		E.quiet = q
+		E.soft = savedSoft
+		if savedSoft == 0 && E.softHit {
+			// outermost operand evaluation ran out of its budget: unknown, charged at the budget
+			E.softHit = false
+			E.steps = start + SideBudget
+			tainted = true
+			return Itv{}, false
+		}
+		if E.softHit {
+			return Itv{}, false
+		}
 		return av.R, true
 	}
 	meet := func(v ssa.Value, f func(Itv) Itv) {
@@ -519,6 +539,11 @@ func (E *Ranger) envFrom(ctx *callCtx, ff *FuncFacts, atoms []*Atom) *evalEnv {
 			}
 		}
 	}
+	_ = tainted
+	if E.softHit {
+		// built while an enclosing operand evaluation was out of budget: do not keep it
+		delete(E.envs, key)
+	}
 	return env
 }
 
@@ -570,13 +595,21 @@ func (E *Ranger) ValAt(ctx *callCtx, v ssa.Value, in ssa.Instruction) AV {
 	return E.eval(ctx, E.EnvAt(ctx, in), v, 0)
 }
 
-// MaxRangerSteps bounds one Ranger's work (value evaluations).
+// MaxRangerSteps bounds one Ranger's work (value evaluations); SideBudget bounds the
+// evaluation of one guard operand while an environment is built.
 const MaxRangerSteps = 400000
+const SideBudget = 15000
 
 func (E *Ranger) eval(ctx *callCtx, env *evalEnv, v ssa.Value, depth int) AV {
 	E.steps++
 	if E.steps > MaxRangerSteps {
 		E.Exhausted = true
+		av := topAV()
+		av.D = DUnk
+		return av
+	}
+	if E.soft > 0 && E.steps > E.soft {
+		E.softHit = true
 		av := topAV()
 		av.D = DUnk
 		return av
@@ -598,7 +631,9 @@ func (E *Ranger) eval(ctx *callCtx, env *evalEnv, v ssa.Value, depth int) AV {
 	av := E.eval1(ctx, env, v, depth)
 	delete(E.busy, key)
 	av = E.refine(ctx, env, v, av)
-	E.memo[key] = av
+	if !E.softHit {
+		E.memo[key] = av
+	}
 	return av
 }
 
@@ -1174,7 +1209,9 @@ func (E *Ranger) summaryRel(fn *ssa.Function, args []AV, rel map[int]map[int]Dir
 		}
 	}
 	E.memo[mk] = AV{}
-	E.sums[mk] = out
+	if !E.softHit {
+		E.sums[mk] = out
+	}
 	return out
 }
 
